@@ -34,8 +34,9 @@ func (b *FormBinding) Bind(req *fasthttp.Request, out any) error {
 			return
 		}
 
-		k := utils.UnsafeString(key)
-		v := utils.UnsafeString(val)
+		// copy: bound fields and map entries must not alias the recycled request buffers
+		k := string(key)
+		v := string(val)
 		err = formatBindData(out, data, k, v, b.EnableSplitting, true)
 	})
 
